@@ -283,11 +283,28 @@ def rule_R2(ctx):
             pcs = PA.arguments_pieces(a[0])
             if pcs is not None:
                 fmts.append((cb, blk, "".join(p[1] if p[0] == "lit" else "H" for p in pcs), pcs))
+    # `[a, b, c, d].join("|")` writes the same text as `format!("{a}|{b}|{c}|{d}")`: a join over a fixed array is a template
+    fixed_joins = set()
+    for blk, t in Q.calls(gb, "::join"):
+        a = Q.call_args(gb, SG, blk, t)
+        recv, sep = T.strip(a[0]), T.strip(a[1])
+        while recv[0] in ("ref", "deref", "cast"):
+            recv = T.strip(recv[2] if recv[0] in ("ref", "cast") else recv[1])
+        if recv[0] == "agg" and recv[1] == "array" and sep[0] == "const" and isinstance(sep[1], str) and len(recv[4]) >= 2:
+            pcs = []
+            for k_, e_ in enumerate(recv[4]):
+                if k_:
+                    pcs.append(("lit", sep[1]))
+                pcs.append(("hole", e_))
+            fmts.append((gb, blk, sep[1].join("H" for _ in recv[4]), pcs))
+            fixed_joins.add(blk)
     skel = sorted(f[2] for f in fmts)
     ctx.check(skel == sorted(["H:H", "H:H:H:H", "H|H|H|H"]), "R2", "format:skeletons", "pair `id:value`, priority `s:e:d:w`, fingerprint `S|WU|P|PS`",
               "format skeletons are %s" % skel, ctx.loc(gb))
     joins = []
     for blk, t in Q.calls(gb, "::join"):
+        if blk in fixed_joins:
+            continue
         a = Q.call_args(gb, SG, blk, t)
         sep = T.strip(a[1])
         joins.append(sep[1] if sep[0] == "const" else "?")
